@@ -2,6 +2,8 @@ import PromModel.Tsdb.Damage
 import PromModel.Suites.DamageSuite
 import PromProofs.Damage
 import PromProofs.DamageReplay
+import PromModel.Tsdb.OooMarkers
+import PromProofs.OooMarkers
 /-
   C04 — Damaged on-disk data never yields wrong samples.
   Property theorems only.  Model: PromModel/Tsdb/Damage.lean on top of the WAL framing model of C13
@@ -338,11 +340,97 @@ theorem reopen_damaged_no_invention (l : ALogs) (walCut wblCut : Cut) :
   obtain ⟨xs, hx1, hx2⟩ := h2 y hy
   exact ⟨s.ref, h1, xs, List.mem_append.mp hx1, hx2⟩
 
+/-! ### Out-of-order chunks, their WBL markers and head-chunk files that lost their tail
+
+  Model: PromModel/Tsdb/OooMarkers.lean (write path `insert`/`cutNewOOOHeadChunk`/`collectOOORecords`, restart
+  `lastMmapRef` + `loadWBL` marker comparison + replay inserts). -/
+
+section OooMarkers
+open Prom.OooMarkers
+
+/-- **No out-of-order sample is lost (or invented) when the head-chunk files lose a tail.**  For every history
+    of out-of-order inserts of a series interleaved with other chunk writes and file cuts, every cap, and every
+    cutoff reference — the chunks at or behind it are gone (the newest file truncated at a chunk boundary or
+    inside the zero bytes of the next header, the damaged file and all later ones deleted, a crash before the
+    chunk write buffer was flushed; `cutoff` behind everything = nothing lost) while the WBL is intact — the
+    restart returns exactly the samples inserted: the surviving chunks, the chunks re-created by the replay and
+    the head chunk.  Rests on `loadWBL` comparing the marker with the last loaded chunk by file sequence AND
+    offset. -/
+theorem ooo_tail_loss_recovered (cap : Nat) (ops : List Op) (cutoff : Ref) (x : Nat) :
+    x ∈ recovered cap honourReal (keepBefore cutoff (run cap ops).disk) (run cap ops).wbl ↔ x ∈ inserted ops := by
+  have hs := sorted_run cap ops
+  have hm := mirror_run cap (fun r => r.lt cutoff) ops
+  have hcongr : replay cap (honourReal (lastRef (keepBefore cutoff (run cap ops).disk))) (run cap ops).wbl =
+      replay cap (honourSurv fun r => r.lt cutoff) (run cap ops).wbl := by
+    apply foldl_rStep_congr
+    intro m hmem
+    rcases hs.markers m hmem with h0 | ⟨c, hc, rfl⟩
+    · subst h0
+      simp [honourReal, honourSurv]
+    · rw [honourReal_prefix hs.pairwise hs.pos cutoff hc]
+      have : (c.ref == ((0, 0) : Ref)) = false := by
+        apply beq_false_of_ne
+        intro e
+        have := hs.pos c hc
+        rw [e] at this
+        simp at this
+      simp [honourSurv, this]
+  have hrec : recovered cap honourReal (keepBefore cutoff (run cap ops).disk) (run cap ops).wbl =
+      ((keepBefore cutoff (run cap ops).disk).filterMap (·.ooo)).flatten ++
+        (((run cap ops).disk.filter fun c => !(c.ref.lt cutoff)).filterMap (·.ooo)).flatten ++
+        (run cap ops).head := by
+    unfold recovered
+    dsimp only
+    rw [hcongr, hm.head, hm.remapped]
+  rw [← content_run cap ops x, hrec]
+  simp only [keepBefore, Writer.content, List.mem_append, List.mem_flatten, List.mem_filterMap, List.mem_filter]
+  constructor
+  · rintro ((⟨l, ⟨c, ⟨hc, _⟩, hl⟩, hx⟩ | ⟨l, ⟨c, ⟨hc, _⟩, hl⟩, hx⟩) | hx)
+    · exact Or.inl ⟨l, ⟨c, hc, hl⟩, hx⟩
+    · exact Or.inl ⟨l, ⟨c, hc, hl⟩, hx⟩
+    · exact Or.inr hx
+  · rintro (⟨l, ⟨c, hc, hl⟩, hx⟩ | hx)
+    · cases hlt : c.ref.lt cutoff with
+      | true => exact Or.inl (Or.inl ⟨l, ⟨c, ⟨hc, hlt⟩, hl⟩, hx⟩)
+      | false => exact Or.inl (Or.inr ⟨l, ⟨c, ⟨hc, by simp [hlt]⟩, hl⟩, hx⟩)
+    · exact Or.inr hx
+
+/-- An in-order chunk at (1,8), then five out-of-order samples with cap 4: the out-of-order chunk `[1,2,3,4]`
+    is written at (1,48), its marker is in the WBL, sample 5 is in the head chunk. -/
+def tailHistory : List Op := [.other 10, .insert 1, .insert 2, .insert 3, .insert 4, .insert 5]
+
+example : (run 4 tailHistory).disk = [⟨(1, 8), none⟩, ⟨(1, 48), some [1, 2, 3, 4]⟩] ∧
+    (run 4 tailHistory).wbl = [.marker (0, 0), .samples [1], .samples [2], .samples [3], .samples [4],
+      .marker (1, 48), .samples [5]] := by decide
+
+/-- The file cut at the start of the out-of-order chunk: everything is back with the comparison of the code … -/
+example : recovered 4 honourReal (keepBefore (1, 48) (run 4 tailHistory).disk) (run 4 tailHistory).wbl
+    = [1, 2, 3, 4, 5] := by decide
+
+/-- **… and lost when only the file sequence is compared** ("files are only ever dropped as a whole"): the
+    stale marker is honoured, the replayed head chunk is thrown away, samples 1–4 are gone although they are
+    in the intact WBL.  This is the mistake the directed cases of suite `damage` (newest head-chunk file
+    ending in out-of-order chunks, truncated at every chunk boundary +0…+8) are there to catch. -/
+theorem marker_seq_only_loses_witness :
+    recovered 4 honourSeqOnly (keepBefore (1, 48) (run 4 tailHistory).disk) (run 4 tailHistory).wbl = [5] := by
+  decide
+
+/-- **Finding C04-F5.**  When a chunk is missing from the MIDDLE (an older head-chunk file cut at a chunk
+    boundary reads as complete while a newer file survives) the comparison of the code honours the marker as
+    well: file 1 loses its out-of-order chunk, file 2 keeps a chunk, `lastMmapRef = (2,8)`, samples 1–4 are
+    lost although the WBL is intact.  `ooo_tail_loss_recovered` needs the surviving chunks to be a prefix. -/
+theorem older_file_cut_loses_ooo_witness :
+    let w := run 4 (tailHistory ++ [.newFile, .other 10])
+    w.disk = [⟨(1, 8), none⟩, ⟨(1, 48), some [1, 2, 3, 4]⟩, ⟨(2, 8), none⟩] ∧
+      recovered 4 honourReal (w.disk.filter fun c => c.ref != (1, 48)) w.wbl = [5] := by decide
+
+end OooMarkers
+
 /-! The DB-level clause of C04 over whole histories (damage, open, further appends, restart: "everything
     returned was appended under these labels") is refuted on the model by `wbl_sample_reattributed_witness`
     and its session-level completeness clause by `wbl_skipped_after_wal_repair_witness`; there is no
     byte-level head/query/append model in this property, so beyond the theorems above that clause is decided
     on the real database by the judge of suite `damage` at every damage site (findings F18, F19, C04-F1,
-    C04-F2 are its known failures). -/
+    C04-F2, C04-F5 are its known failures). -/
 
 end Prom.C04
